@@ -136,6 +136,7 @@ def run_state(case):
             if got != want:
                 raise Violation("C19 market-data dictionary entry is bound to the wrong series", "%s: got %r, recomputed per step %r" % (k, got, want))
 
+    modified = set()
     audit(-1)
     if case.get("dict0"):
         check_dict()
@@ -165,6 +166,16 @@ def run_state(case):
                     env.submit_cancellations(np.array([oid], dtype=np.uint64))
                 else:
                     env.cancel_order(oid)
+        elif op[0] == "modify":
+            # StepEnv only (StepEnvNumpy has no modification call): re-price and / or re-size an existing order; a
+            # crossing re-price trades against the OTHER side of the book
+            n = len(env.get_orders())
+            if n and not numpy_api:
+                oid = (op[1] * n) >> 16
+                price = None if op[2] is None else kmap(op[2]) * tick
+                env.modify_order(oid, new_price=price, new_vol=op[3])
+                modified.add(oid)
+                feat["modifies"] = feat.get("modifies", 0) + 1
         elif op[0] == "dict":
             check_dict()
             continue
@@ -205,6 +216,8 @@ def run_state(case):
         fills[a] = fills.get(a, 0) + vol
         fills[p_] = fills.get(p_, 0) + vol
     for oid, vol, start_vol, status, side in zip(odf["order_id"].tolist(), odf["vol"].tolist(), odf["start_vol"].tolist(), odf["status"].tolist(), odf["side"].tolist()):
+        if oid in modified:
+            continue  # a modification may have re-sized the order: the log alone does not give its remaining volume
         if vol != start_vol - fills.get(oid, 0):
             raise Violation("C19 order data-frame volume columns do not hold remaining / starting volume", "order %r: vol column %r, start_vol column %r, logged fills %r" % (oid, vol, start_vol, fills.get(oid, 0)))
         # (an order submitted with volume 0 has nothing to fill: its status says nothing about the columns)
@@ -215,7 +228,7 @@ def run_state(case):
     if fills:
         feat["frames_with_fills"] = 1
     nontrivial = feat["asym"] >= 1
-    return nontrivial, {"array_states": 1, "states_at_the_top_of_the_price_range": int(shift == 1), "states_at_the_bottom_of_the_price_range": int(shift == 2), "end_to_end_frames_with_fills": feat.get("frames_with_fills", 0), "arrays_checked": feat["arrays"], "steps": feat["steps"], "asymmetric_audits": feat["asym"], "asymmetric_audits_with_distinct_nonzero_traded_volume": feat.get("asym_with_trade_vol", 0), "trading_toggles": feat.get("toggles", 0), "dictionaries_checked": feat["dicts"], "dictionaries_read_before_the_first_step": feat.get("dicts_before_first_step", 0), "numpy_api_cases": int(numpy_api), "orders_placed_in_bulk_at_one_price": feat.get("bulk_orders", 0), "cases_with_a_level_of_65536_or_more_orders": int(feat.get("bulk_max", 0) >= 65536), "cases_with_a_level_of_256_or_more_orders": int(feat.get("bulk_max", 0) >= 256)}
+    return nontrivial, {"array_states": 1, "states_at_the_top_of_the_price_range": int(shift == 1), "states_at_the_bottom_of_the_price_range": int(shift == 2), "end_to_end_frames_with_fills": feat.get("frames_with_fills", 0), "arrays_checked": feat["arrays"], "steps": feat["steps"], "asymmetric_audits": feat["asym"], "asymmetric_audits_with_distinct_nonzero_traded_volume": feat.get("asym_with_trade_vol", 0), "trading_toggles": feat.get("toggles", 0), "modifications": feat.get("modifies", 0), "dictionaries_checked": feat["dicts"], "dictionaries_read_before_the_first_step": feat.get("dicts_before_first_step", 0), "numpy_api_cases": int(numpy_api), "orders_placed_in_bulk_at_one_price": feat.get("bulk_orders", 0), "cases_with_a_level_of_65536_or_more_orders": int(feat.get("bulk_max", 0) >= 65536), "cases_with_a_level_of_256_or_more_orders": int(feat.get("bulk_max", 0) >= 256)}
 
 
 def state_case_st():
@@ -236,6 +249,7 @@ def state_case_st():
         st.tuples(st.just("place"), st.just(True), st.integers(1, 30), st.integers(0, 9), st.integers(96, 104)),
         st.tuples(st.just("place"), st.just(False), st.integers(1, 40), st.integers(0, 9), st.integers(96, 104)),
         st.tuples(st.just("cancel"), st.integers(0, 65535)),
+        st.tuples(st.just("modify"), st.integers(0, 65535), st.one_of(st.none(), st.integers(94, 106)), st.one_of(st.none(), st.integers(1, 40))),
         st.tuples(st.just("step")),
         st.tuples(st.just("step")),
         st.tuples(st.just("dict")),
@@ -324,7 +338,7 @@ def doc_tables():
 
 
 RULE = (
-    "Three kinds of case. (1) array states: a generated sequence of placements (bids and asks at overlapping price bands so that books are "
+    "Three kinds of case. (1) array states: a generated sequence of placements (bids and asks at overlapping price bands; on StepEnv also modifications, incl. re-prices that cross and trade against the other side so that books are "
     "asymmetric in price, total volume, touch volume and touch count, with several occupied levels), cancels and steps on StepEnv or StepEnvNumpy; "
     "after every call element k of level_1_data_array / level_2_data_array (StepEnv) or level_1_data / level_2_data (StepEnvNumpy) must equal the "
     "quantity the documentation assigns to index k (traded volume of the last step, bid price, ask price, bid volume, ask volume, then per level bid "
